@@ -50,7 +50,9 @@ class ODim:
             out = []
             for c in self.valid:
                 if fl == "datetime":
-                    out.append(datetime.strptime(c["evalue"], "%Y-%m").strftime("%b %Y"))
+                    res = S.datetime_resolution(c["evalue"])
+                    out.append(datetime.strptime(c["evalue"], S.DATETIME_IN[res]).strftime(
+                        S.DATETIME_OUT[res]))
                 elif fl == "text":
                     out.append(str(c["evalue"]))
                 elif fl == "numeric":
